@@ -305,6 +305,18 @@ func hC03Deep(m *ir.Module, f *ir.Func) {
 	vfReach("C03.deep.built")
 	s := m.String()
 	vfObserveStr("printed", s)
+	// LLVM validity that the library's own parser does not enforce: an
+	// instruction or terminator of type void is printed without a result
+	// ("instructions returning void cannot have a name"), a value with one
+	for _, x := range all {
+		tv, isValue := x.(interface{ Type() types.Type })
+		ls, hasText := x.(interface{ LLString() string })
+		if isValue && hasText {
+			text := ls.LLString()
+			named := len(text) > 0 && text[0] == '%'
+			vfAssert("C03.deep.result-is-printed-iff-the-type-is-not-void", named == !types.Equal(tv.Type(), types.Void))
+		}
+	}
 	m2, err := ParseString("t.ll", s)
 	vfAssert("C03.deep.reparses", err == nil)
 	if err != nil {
@@ -398,6 +410,8 @@ func hC03ProgMemory(after func(*ir.Module, *ir.Func)) {
 	callee := m.NewFunc("callee", types.Double, ir.NewParam("a", it))
 	vcallee := m.NewFunc("vcallee", it, ir.NewParam("a", it))
 	vcallee.Sig.Variadic = true
+	vvoid := m.NewFunc("vvoid", types.Void, ir.NewParam("a", it))
+	vvoid.Sig.Variadic = true
 	f := m.NewFunc(hLetterIn("fname", 'a', 'e'), types.Void,
 		ir.NewParam("x", it), ir.NewParam("p", types.NewPointer(it)), ir.NewParam("v", types.NewVector(4, it)), ir.NewParam("d", types.Double), ir.NewParam("va", types.I8Ptr), ir.NewParam("ps", types.NewPointer(types.NewStruct(it, types.NewArray(2, types.I8), types.NewStruct(types.I8, types.I64)))), ir.NewParam("arr", types.NewPointer(types.NewArray(4, types.I32))))
 	b := f.NewBlock("entry")
@@ -435,6 +449,7 @@ func hC03ProgMemory(after func(*ir.Module, *ir.Func)) {
 	b.NewShuffleVector(v, iv, constant.NewZeroInitializer(types.NewVector(4, types.I32)))
 	call := b.NewCall(callee, x)
 	b.NewCall(vcallee, x, d)
+	b.NewCall(vvoid, x, d) // variadic and void: printed with its signature, without a result
 	b.NewPhi(ir.NewIncoming(call, b))
 	b.NewVAArg(va, it)
 	b.NewRet(nil)
